@@ -729,6 +729,22 @@ pub fn run(tier: &str, seed: u64, dir: &str) {
             }
         }
     }
+    // coverage audit: further type parameters / component types, long extends and collects, the `cloned()` / `as_refs()` read paths (`c18_more.rs`).
+    // Called last, so that the case stream above is unchanged.
+    crate::c18_more::run_more(&mut out, &mut rng, thorough, dir, &mut n_shrunk);
     let extra = format!("\"exhaustive\":{{\"bounded_histories_enumerated\":{},\"alphabet\":22,\"max_length\":{}}}", n_enum, depth);
     out.finish(dir, &extra);
+}
+
+// ------------------------------------------------------------------------------------------------ coverage audit (c18_more.rs)
+// Path-based names for the interpreter macros, so that `c18_more.rs` can instantiate further configurations with `soa_type!`.
+pub(crate) use {forget_script, get_m, get_mr, get_r, interp, read_script, soa_type, until_none, with_range, write_script};
+/// oracle + shrinking + protocol line for one history on one configuration (= `run_history`)
+pub(crate) fn audit_history(out: &mut Out, cfg: &Cfg, ops: &[Op], dir: &str, n_shrunk: &mut usize) { run_history(out, cfg, ops, dir, n_shrunk) }
+/// the boundary stream and `n_hist` random histories of `run` for one configuration, as lists of operations
+pub(crate) fn audit_histories(seed: u64, k: usize, ty: &'static str, n_hist: usize) -> Vec<Vec<Op>> {
+    let mut g = Gen { rng: Rng::new(seed), k, ty, next_id: 0 };
+    let mut hs = structured(&mut g);
+    for i in 0..n_hist { let n = match i % 10 { 0 => 200, 1 | 2 => 60, 3 => 3, _ => 5 + g.rng.below(30) as usize }; hs.push(g.history(n)); }
+    hs
 }
